@@ -482,6 +482,10 @@ func (g *Gen) TransportFor(minCap int, bytes int64) Transport {
 		// (slide, re-align, regrow, clamp at EOF) run on small files
 		tr.ReadWindow = []int{1024, 2048, 3000, 4096, 8192, 16384, 65536, 100000}[g.R.Intn(8)]
 	}
+	if g.R.Intn(3) == 0 {
+		// tuning knob: small delta blocks, so that small files have many blocks
+		tr.MinBlock = []int{8, 16, 17, 64, 100, 128, 255, 512}[g.R.Intn(8)]
+	}
 	// bound the number of scheduler steps: about 40k steps per session
 	const stepTarget = 40000
 	if bytes/stepTarget > 1 {
